@@ -73,10 +73,12 @@ def _violation(ref, kind, arrays):
 
 
 def _configs(tier):
-    out = [("1q", "state", 0), ("1q", "povm", 2), ("1q", "povm", 3), ("1q", "gate", 0), ("1q", "mprocess", 2), ("1qt", "state", 0)]
+    out = [("1q", "state", 0), ("1q", "povm", 2), ("1q", "povm", 3), ("1q", "gate", 0), ("1q", "mprocess", 2), ("1qt", "state", 0),
+           ("1q", "mprocess", 3), ("1qt", "gate", 0)]
     if tier == "thorough":
-        out += [("1q", "povm", 4), ("1qt", "povm", 3), ("2q", "state", 0), ("1q", "mprocess", 3), ("2q", "povm", 2)]
-    return out
+        out += [("1q", "povm", 4), ("1qt", "povm", 3), ("2q", "state", 0), ("2q", "povm", 2), ("1qt", "povm", 2)]
+    # both parametrisations: with the flag on, the input is the object generated from the constrained variables
+    return [c + (flag,) for c in out for flag in (False, True)]
 
 
 def job_physical_projection(tier="quick", seed=0, part=0, parts=1):
@@ -88,14 +90,16 @@ def job_physical_projection(tier="quick", seed=0, part=0, parts=1):
               prop="C05", what="input")
     cfgs = [c for k, c in enumerate(_configs(tier)) if k % parts == part]
     LIMIT = 200000
-    for (s, kind, m) in cfgs:
+    for (s, kind, m, on_para) in cfgs:
         c = _csys(s)
         ref = _Ref(c)
         for what in ("near-physical", "physical", "far-1", "far-10", "far-100"):
             for eps in (None, 1e-8):
                 acc = 1e-5 if eps is None else 1e-3          # accuracy demanded of a run stopped at threshold eps (1e-14 by default / 1e-8)
                 for rep in range(reps if what != "far-100" else 1):
-                    entry = (s, kind, m, what, "eps=default" if eps is None else f"eps={eps:g}", rep)
+                    if what == "far-100" and (s != "1q" or on_para):
+                        continue        # (the far-100 class is there for the iteration limit: one-qubit objects, flag off)
+                    entry = (s, kind, m, "flag on" if on_para else "flag off", what, "eps=default" if eps is None else f"eps={eps:g}", rep)
                     phys = physical_arrays(ref, kind, m, rng)
                     if what == "physical":
                         arrays, scale = phys, 1.0
@@ -109,6 +113,9 @@ def job_physical_projection(tier="quick", seed=0, part=0, parts=1):
                     tol = acc * max(1.0, scale)
                     sc = f"[{what}]"
                     x = _build(kind, c, arrays, False, "eq_ineq", eps)
+                    if on_para:
+                        # the constrained variables of the input (implied entries dropped), and the object they denote
+                        x = _build(kind, c, _arrays(_build(kind, c, arrays, True).generate_from_var(_build(kind, c, arrays, True).to_var())), True, "eq_ineq", eps)
                     xs = _flat(x)
                     before = [np.array(a, copy=True) for a in _arrays(x)]
                     try:
@@ -154,13 +161,23 @@ def job_physical_projection(tier="quick", seed=0, part=0, parts=1):
                         lastv = np.hstack([np.asarray(a, dtype=float).reshape(-1) for a in (_arrays(last) if hasattr(last, "composite_system") else [last])])
                         dv = float(np.abs(lastv - pxs).max()) if lastv.shape == pxs.shape else float("inf")
                         t.check(f"history-ends-at-result{sc}", dv <= 1e-12 * max(1.0, scale), entry, "the last iterate of the reported history is the returned point", f"max deviation {dv:.3e}")
-                    with contextlib.redirect_stdout(io.StringIO()):
-                        py = _build(kind, c, before, False, "ineq_eq", eps).calc_proj_physical(max_iteration=limit)
-                        pv = x.calc_proj_physical_with_var(x.to_var(), on_para_eq_constraint=False, max_iteration=limit)
-                    dv = float(np.abs(_flat(py) - pxs).max())
-                    t.check(f"order-independent{sc}", dv <= tol, entry, "both orders of alternating the two constraint projections give the same point", f"max deviation {dv:.3e}")
-                    dv = float(np.abs(np.asarray(pv, dtype=float) - pxs).max())
-                    t.check(f"var-level==object-level{sc}", dv <= 1e-9 * max(1.0, scale), entry, "calc_proj_physical_with_var(var) == stacked calc_proj_physical()", f"max deviation {dv:.3e}")
+                    def other_order():
+                        with contextlib.redirect_stdout(io.StringIO()):
+                            py = _build(kind, c, before, on_para, "ineq_eq", eps).calc_proj_physical(max_iteration=limit)
+                        dv = float(np.abs(_flat(py) - pxs).max())
+                        return dv <= tol, f"max deviation {dv:.3e}"
+                    t.guard(f"order-independent{sc}", entry, other_order, "both orders of alternating the two constraint projections give the same point")
+
+                    def var_level():
+                        with contextlib.redirect_stdout(io.StringIO()):
+                            pv = x.calc_proj_physical_with_var(x.to_var(), on_para_eq_constraint=on_para, max_iteration=limit)
+                        if on_para:
+                            pv = _flat(x.generate_from_var(np.asarray(pv, dtype=float)))
+                        dv = float(np.abs(np.asarray(pv, dtype=float) - pxs).max())
+                        return dv <= (tol if on_para else 1e-9 * max(1.0, scale)), f"max deviation {dv:.3e}"
+                    t.guard(f"var-level==object-level{sc}", entry, var_level,
+                            "calc_proj_physical_with_var(var) == calc_proj_physical() (flag off: the same iterates, 1e-9; flag on: the variable-level result is re-embedded "
+                            "with the constraint exact, the object-level one satisfies it to the stopping accuracy)")
                     unchanged = all(np.array_equal(a, b) for a, b in zip(_arrays(x), before))
                     t.check(f"argument-unchanged{sc}", unchanged, entry, "the projection never modifies its argument", "")
     return t.results(f"{len(cfgs)} configurations x 5 input classes x 2 stopping thresholds, seeded random inputs (bounded)")
